@@ -33,7 +33,7 @@ CHECKS['C08'] = dict(
 
 CHECKS['C16'] = dict(
     technique='static analysis: attribute typing from abstract interpretation of the parser actions vs the shape of each class\'s children(); abstract evaluation of Node.__iter__ / Walker.walk / filter / extract on abstract trees',
-    text='Decides children() completeness for every node class the parser builds (53 classes, 177 attribute obligations, exhaustive) and the traversal discipline of the generic walkers on a family of abstract trees, incl. per class an instance with leaf children and one with every list attribute empty followed by a sibling (truth value by the __len__ / __bool__ of the class), and extract for negative, valid and too large skip.',
+    text='Decides children() completeness for every node class the parser builds (53 classes, 177 attribute obligations, exhaustive) and the traversal discipline of the generic walkers on a family of abstract trees, incl. per class an instance with leaf children and one with every list attribute empty followed by a sibling (truth value by the __len__ / __bool__ of the class), and extract for negative, valid and too large skip. Every traversal is run twice on trees whose children() hand out the list the node itself owns (walking is an observation), and the module-level shortcut functions of walkers.py are evaluated on the same trees.',
     ref='DESIGN.md section 3 C16',
     note='Trusted: action interpreter typing (E4), abstract evaluator. Trees built by hand with attributes the parser never sets are outside the quantifier.')
 CHECKS['C14'] = dict(
@@ -48,7 +48,7 @@ CHECKS['C15'] = dict(
     note='Trusted: CPython ast; ply builds its objects per yacc()/lex() call and shares table modules read-only.')
 CHECKS['C18'] = dict(
     technique='static analysis by partial evaluation: io.read and io.write are evaluated from their syntax trees with stand-in streams, parser, printer and source-map writer for every arrangement of factories / open streams and every step that can fail (fault-injection decision tables: 14 + 65 cells, each step failing with an Exception or with an interrupt); utils.normrelpath, sourcemap.verify_write_sourcemap_args and the inline branch of write_sourcemap are folded on tables of path pairs and charsets',
-    text='Decides the closing discipline exhaustively over the modelled arrangements and fault points (each stand-in step fails or not), propagation of failures, the re-labelling of syntax errors, that the printer output and the streams reach the source-map writer unchanged, and - on a finite table, not exhaustively - that the computed relative references designate the right files and that the inline data URL decodes (strict standard base64) to the map. Every failing step also fails with an exception that is not an Exception (interrupt). Equality of the written text with the printer output is not decided.',
+    text='Decides the closing discipline exhaustively over the modelled arrangements and fault points (each stand-in step fails or not), propagation of failures, the re-labelling of syntax errors, that the printer output and the streams reach the source-map writer unchanged, and - on a finite table, not exhaustively - that the computed relative references designate the right files and that the inline data URL decodes (strict standard base64) to the map. Every failing step also fails with an exception that is not an Exception (interrupt). The fault table is also run as histories (a second call after a successful, failed or interrupted first call through one evaluator, class-level state shared as Python shares it), and R18.5 shows that io.py keeps no state between calls. Equality of the written text with the printer output is not decided.',
     ref='DESIGN.md sections 3 (C18), 9.2, 13.1',
     note='Trusted: CPython ast, the evaluator, posixpath as the meaning of os.path. exhaustive over fault points of the stand-ins; sampled over path strings.')
 
@@ -103,12 +103,12 @@ CHECKS['C19'] = dict(
 
 CHECKS['C09'] = dict(
     technique='static analysis by partial evaluation: sourcemap.write with its bookkeeping classes (Names, Bookkeeper with its attribute hooks, Book) and normalize_mappings are evaluated from their syntax trees on every stream of up to 3 (thorough 4) abstract fragments over 17 fragment shapes x {normalisation off, on}; the relative mappings are decoded by an independent 40-line Source Map V3 decoder and compared clause by clause with what the fragments carried; encode_sourcemap is folded and decoded back',
-    text='Bounded: exhaustive over the abstract fragment streams up to the bound (about 21 000 quick, ~250 000 thorough) and over every split of such a stream into two calls that share book, sources, names and mappings (R09.4), not beyond. Decides, on those, the mapping of every explicitly positioned fragment (source, line, column, original name; by linear interpolation when normalised), index ranges, monotone generated columns and one mapping line per text line. Streams longer than the bound and other concrete positions are NOT decided; the VLQ layer is C10.',
+    text='Bounded: exhaustive over the abstract fragment streams up to the bound (about 21 000 quick, ~250 000 thorough) and over every split of such a stream into two calls that share book, sources, names and mappings (R09.4), not beyond. Decides, on those, the mapping of every explicitly positioned fragment (source, line, column, original name; by linear interpolation when normalised), index ranges, monotone generated columns and one mapping line per text line. Streams longer than the bound and other concrete positions are NOT decided; the VLQ layer is C10. The quick tier also covers a narrow line-structured family of 4-6 fragment streams (two fragments ending a generated line, one or two line breaks, one or two fragments opening the next).',
     ref='DESIGN.md sections 9.2, 13.4',
     note='Trusted: the evaluator (engine/absint.py), the embedded decoder. No repository code is imported or run; the functions are interpreted from their syntax trees.')
 
 CHECKS['C17'] = dict(
     technique='static analysis by partial evaluation of the plumbing between the repository and ply: Parser.__init__ and Lexer.build evaluated from their syntax trees with stand-ins for Lexer / ply.lex.lex / ply.yacc.yacc over the complete configuration table (lex_optimize x yacc_optimize x table names given/default x with_comments); utils.generate_tab_names folded on version tables; parsers/optimize.py (reoptimize, optimize_build) evaluated with stand-in file operations',
-    text='Narrow claim. Decides only what the repository contributes: the object, start symbol, tokens and comment flag reach ply identically in every configuration, flags and table names pass through unchanged and uncrossed, table names identify module / Python / ply version, and the optimize helper regenerates under the names the parser loads. That ply drives the same parse from cached tables as from computed ones is inside ply and NOT decided; regenerated modules are build products absent from the tree.',
+    text='Narrow claim. Decides only what the repository contributes: the object, start symbol, tokens and comment flag reach ply identically in every configuration, flags and table names pass through unchanged and uncrossed, table names identify module / Python / ply version, and the optimize helper regenerates under the names the parser loads. R17.5: constructing a Parser / Lexer writes no module-level, class-level or captured state (the repository caches no lexer or table object of its own). That ply drives the same parse from cached tables as from computed ones is inside ply and NOT decided; regenerated modules are build products absent from the tree.',
     ref='DESIGN.md sections 5, 13.4',
     note='Trusted: the evaluator. exhaustive over the 16 configurations.')
